@@ -23,7 +23,7 @@ ASSUMPTIONS = [
 NSHARDS = {"quick": 16, "thorough": 16}
 N_MIX = {"quick": 220, "thorough": 6000}
 N_SIM = {"quick": 12, "thorough": 300}
-REQUIRE = {"container_succeeded": 500, "container_failed": 500, "suspension_finished": 100, "rejected:unknown-pool": 10,
+REQUIRE = {"scale:script_of_more_than_4096_ticks": 1, "container_succeeded": 500, "container_failed": 500, "suspension_finished": 100, "rejected:unknown-pool": 10,
            "steps_with_completion_and_kill": 20, "steps_with_three_kinds_of_ending": 3, "sim_runs": 50}
 
 
